@@ -331,7 +331,7 @@ def run(chk):
         trusted_extra=["Core/VTime.v (periodic part) hand-written model, validated by this run's correspondence",
                        "interval/timer: the observable layer (Observable.subscribe, AutoDetachObserver) is executed, "
                        "modelled only through the scheduler calls it makes"],
-        assumptions=["virtual-time schedulers only; the periodic action takes no virtual time (no sleep inside it)",
+        assumptions=["virtual-time schedulers only; the only way an action takes virtual time is scheduler.sleep",
                      "period > 0 for the closed form (period 0 or negative keeps advance_to busy forever by design)"])
 
 
